@@ -299,8 +299,8 @@ def cli_stream(ck, tmp):
     fails, rng = [], ck.rng
     m = _mod()
     runs = [(None, None, None, 0)]
-    for _ in range(12 if ck.deep else 6):
-        n = rng.randrange(17)
+    for j in range(12 if ck.deep else 8):
+        n = rng.randrange(17) if j > 2 else (10, 16, 8)[j]
         runs.append((rng.choice(addrs(16 + 8 * n)), rng.choice(addrs(0x10001)), n, rng.choice([1, 0xFFFF, 0x10001])))
     for uci, part, n, size in runs:
         d = tempfile.mkdtemp(prefix="c16cli-", dir=tmp)
@@ -312,7 +312,12 @@ def cli_stream(ck, tmp):
             uci, part, n = (m.ImageCreator.default_update_candidate_info_address, m.ImageCreator.default_dfu_partition_address,
                             m.ImageCreator.default_dfu_max_caches)
         else:
-            args += ["--update-candidate-info-address", hex(uci), "--dfu-partition-address", str(part), "--dfu-max-caches", str(n)]
+            # the spellings the options accept: the count is a decimal number (zero-padded ones too: '010' is ten), the addresses
+            # are decimal or 0x / 0X hex
+            k = len(runs) + n + (part % 7)
+            n_text = [str(n), "%03d" % n, "%04d" % n, "+%d" % n][k % 4]
+            uci_text = [hex(uci), str(uci), "0X%X" % uci][k % 3]
+            args += ["--update-candidate-info-address", uci_text, "--dfu-partition-address", str(part), "--dfu-max-caches", n_text]
         rc = cli(args, d)
         c = {"file": data, "uci": uci, "part": part, "n": n}
         ck.count("cli", (data, uci, part, n), sample=brief(c))
